@@ -33,7 +33,8 @@ RULE = (
     "altered before encoding) decided by the reference decoder; wif: secrets x compression x 4 "
     "networks; extended_keys: reference BIP32 serialisations under all 20 SLIP-132 versions; "
     "segwit_grid: EXHAUSTIVE versions 0..16 x lengths 2..40 x 4 networks with 3 program patterns; "
-    "segwit_random: random programs on the same grid; substitution_detection: per sampled address "
+    "segwit_random: random programs on the same grid (both also: address_to_script_pubkey refuses "
+    "the address or returns exactly OP_v <program>); substitution_detection: per sampled address "
     "EVERY single substitution at every data-part position (31 x len) plus sampled double "
     "substitutions against 3 decoding entry points; script_address_bijection: 5 templates x 4 "
     "networks against reference addresses, both directions. Non-trivial: base58 payload with a "
@@ -386,6 +387,21 @@ def check_segwit(case, ctx):
     require(st_ == "exc" or not got, f"segwit/accepts_wrong_constant:v{min(version, 1)}",
             f"{cross} ({other} checksum on a version {version} program) -> {got!r}")
     ctx.label("cross_constant_rejected")
+    # address -> scriptPubKey on every (version, length), standard template or not: the address is
+    # either refused or mapped to exactly OP_version <program>, whose address is this string again
+    # (anything else gives two addresses for one script: not a bijection)
+    s2, back = attempt(address_to_script_pubkey, want)
+    if s2 == "ok" and back is not None:
+        raw_back = must(back.raw_serialize, "segwit/a2s_serialise")
+        require(raw_back == spk, f"segwit/address_to_script_differs:v{min(version, 2)}",
+                f"addr={want} v={version} prog={program.hex()} -> {type(back).__name__} "
+                f"{raw_back.hex()}")
+        s4, again = attempt(back.address, network)
+        require(s4 == "exc" or again == want, "segwit/address_to_script_readdress_differs",
+                f"addr={want} -> {type(back).__name__} -> {again!r}")
+        ctx.label("a2s_accepts_v0" if version == 0 else "a2s_accepts_v1+")
+    else:
+        ctx.label("a2s_refuses")
     # observation only (not part of the statement): version 17..31 with a valid bech32m checksum
     if version == 16:
         hi = rb.encode(hrp, [17 + len(program) % 15] + rb.to5(program), rb.BECH32M)
